@@ -994,6 +994,20 @@ func (t *Tree) Compile(file string, args []string, out io.Writer) (err error) {
 		}
 	}
 
+	/* rangeCovers reports whether the first terminal reached from n is a range of exactly keys characters */
+	var rangeCovers func(n *node, keys int) bool
+	rangeCovers = func(n *node, keys int) bool {
+		switch n.GetType() {
+		case TypeRange:
+			lower := []rune(n.Front().String())[0]
+			upper := []rune(n.Front().Next().String())[0]
+			return int(upper)-int(lower)+1 == keys
+		case TypeSequence, TypePush, TypeImplicitPush:
+			return rangeCovers(n.Front(), keys)
+		}
+		return false
+	}
+
 	compile = func(n *node, ko uint) (labelLast bool) {
 		switch n.GetType() {
 		case TypeRule:
@@ -1026,7 +1040,7 @@ func (t *Tree) Compile(file string, args []string, out io.Writer) (err error) {
 				_print("}")
 			}
 		case TypeRange:
-			if n.ParentDetect() {
+			if n.ParentDetect() && !n.ParentMultipleKey() {
 				_print("\nposition++")
 				break
 			}
@@ -1132,7 +1146,7 @@ func (t *Tree) Compile(file string, args []string, out io.Writer) (err error) {
 				}
 				_print(":")
 				sequence.SetParentDetect(true)
-				if class.Len() > 1 {
+				if class.Len() > 1 && !rangeCovers(sequence, class.Len()) {
 					sequence.SetParentMultipleKey(true)
 				}
 				if compile(sequence, done) {
